@@ -397,6 +397,8 @@ fn experiment(h: &mut Hist, ctx: &mut Ctx, class: Bad) {
     elements.push(bad.clone());
     elements.extend(suffix_elems);
     let (_r0, d0, i0) = world::error_counters();
+    let announced_before: std::collections::BTreeSet<Vec<u8>> =
+        world::bookkeeping().next_by_hash.iter().map(|(b, _, _)| b.to_vec()).collect();
     let position = n_before;
     ctx.cov.count(&format!("c10_class_{:?}", class));
     ctx.cov.count(&format!("c10_bad_position_{}", position));
@@ -457,6 +459,21 @@ fn experiment(h: &mut Hist, ctx: &mut Ctx, class: Bad) {
                     h.desync = Some("suffix inserted".into());
                     return;
                 }
+            }
+            // the announced headers of a response whose block was refused are dropped with it:
+            // the stored set may shrink (a prefix block arrived) but must not grow
+            let announced_after: std::collections::BTreeSet<Vec<u8>> =
+                world::bookkeeping().next_by_hash.iter().map(|(b, _, _)| b.to_vec()).collect();
+            if !announced_after.is_subset(&announced_before) {
+                ctx.violation(
+                    format!(
+                        "announced headers of a response with a refused {:?} element were stored ({} new): the rest of that response must be dropped",
+                        class,
+                        announced_after.difference(&announced_before).count()
+                    ),
+                    None,
+                    json!({"log": h.log}),
+                );
             }
             ctx.cov.count("c10_rejects_confirmed");
         }
